@@ -109,6 +109,15 @@ def render_handler(spec, ctx_text, id_text):
         return '{ resume_from: "tail" }'
     if spec.get("invalid") == "notclosure":
         return '{ run: 5 }'
+    # options that do not parse: the registration is refused (one `<name>.unregistered` naming it), nothing is started
+    if spec.get("invalid") == "badresume":
+        return '{ run: {|frame| "x"}, resume_from: "nonsense" }'
+    if spec.get("invalid") == "badpulse":
+        return '{ run: {|frame| "x"}, pulse: "often" }'
+    if spec.get("invalid") == "badttl":
+        return '{ run: {|frame| "x"}, return_options: {ttl: "nonsense"} }'
+    if spec.get("invalid") == "badsuffix":
+        return '{ run: {|frame| "x"}, return_options: {suffix: 5} }'
     out = ["$env.n = %d" % spec.get("env0", 0), "{", "  run: {|frame|", "    $env.n = $env.n + 1"]
     out.append('    if $frame.topic == "xs.barrier" {\n      "b"\n    }')       # the runner's quiescence barrier
     first = False
@@ -135,7 +144,7 @@ def render_handler(spec, ctx_text, id_text):
     res = spec.get("resume", "tail")
     if isinstance(res, dict):
         out.append("  resume_from: %s" % nu_str(id_text(res["after"])))
-    else:
+    elif not spec.get("resume_default"):      # left out: the default is tail
         out.append("  resume_from: %s" % nu_str(res))
     if spec.get("pulse"):
         out.append("  pulse: %d" % spec["pulse"])
@@ -269,7 +278,7 @@ class Gen:
     def handler_spec(self, history_ok, name="h"):
         r = self.r
         if r.random() < 0.1:
-            return {"invalid": r.choice(["syntax", "norun", "notclosure"]), "rules": []}
+            return {"invalid": r.choice(["syntax", "norun", "notclosure", "badresume", "badpulse", "badttl", "badsuffix"]), "rules": []}
         rules = [self.rule(t, history_ok) for t in r.sample(TOPICS, r.randint(1, 3))]
         # a react-to-everything rule only under the name "h": two such handlers of different names in
         # one context would answer each other for ever (that is not self-feeding, and never settles)
@@ -283,7 +292,7 @@ class Gen:
         if res == "after":
             cands = [i for i, s in enumerate(self.steps) if s["k"] == "append"]
             res = {"after": r.choice(cands)}
-        return {"rules": rules, "resume": res, "env0": r.choice([0, 0, 5]),
+        return {"rules": rules, "resume": res, "resume_default": res == "tail" and r.random() < 0.3, "env0": r.choice([0, 0, 5]),
                 "suffix": r.choice([None, None, ".x", ".res.y", "-r", "x"]),
                 "ttl": r.choice([None, None, "forever", "time:600000"] + ([] if history_ok else ["head:1", "head:2", "ephemeral"]))}
 
@@ -337,7 +346,8 @@ class Gen:
         r = self.r
         k = r.choice(["list", "list", "single", "empty", "duplex", "duplex", "duplex_first", "nocontent", "mixed", "unparsable"])
         n = 1 if k == "single" else r.randint(1, 3)
-        return {"kind": k, "strings": [r.choice(["a", "b c", "zz"]) for _ in range(n)] if k in ("list", "single", "mixed") else []}
+        return {"kind": k, "strings": [r.choice(["a", "b c", "zz"]) for _ in range(n)] if k in ("list", "single", "mixed") else [],
+                "duplex_false": k in ("list", "single") and r.random() < 0.3}
 
     def build_services(self):
         """commands and generators (C18 / C19): defines, calls (sequential and concurrent), spawns, sends, restarts"""
@@ -567,7 +577,8 @@ def run_impl(sc, keep_dir=False, settle_ms=250):
                     step_ids[i] = obs["ok"]["id"]
             elif k == "spawn":
                 sp = st["spec"]
-                meta = {"duplex": True} if sp["kind"] in ("duplex", "duplex_first") else None
+                # `duplex: false` spelled out is the same as leaving it out
+                meta = {"duplex": True} if sp["kind"] in ("duplex", "duplex_first") else ({"duplex": False} if sp.get("duplex_false") else None)
                 if sp["kind"] == "nocontent":
                     obs = w.call(frame_op("append", st["name"] + ".spawn", ctx_hex(st["ctx"]), meta))
                 else:
@@ -968,6 +979,14 @@ def analyse(sc, res, drv):
                     props.append("C06")
                 if len(actual) > len(want_o) and m["state"] == "stopped":
                     props.append("C16")
+                # after a restart: invoked for frames that were stored before it came up, which the model's instance (tail, or
+                # after an id) is not handed - historical triggers re-executed (C17)
+                if e > 0:
+                    hist_ids = {int(f["id"], 16) for f in hist}
+                    extra = set(trig(actual)) - set(trig(want_o))
+                    if any(isinstance(t, str) and t.startswith("id:") and t[3:].isdigit() and int(t[3:]) in hist_ids for t in extra) \
+                            and "C17" not in props:
+                        props.append("C17")
                 # the stop announcements themselves differ: an instance stopped that had no reason to (or did not stop,
                 # or announced it differently) - that is the lifecycle (C16), whatever it did to the invocations
                 un = st["name"] + ".unregistered"
